@@ -119,7 +119,7 @@ class GeometricConfig:
     erase_ratio_min: float = 1.0
     erase_ratio_max: float = 1.0
     erase_p: float = field(default=0.0, validator=validate_proportion)
-    mixup_lambda: List[float] = [0.01, 0.05]
+    mixup_lambda: List[float] = field(factory=lambda: [0.01, 0.05])
     mixup_p: float = field(default=0.0, validator=validate_proportion)
 
 
